@@ -136,20 +136,39 @@ FLOAT_POOL = [0.0, -0.0, 0.5, 1.0, -1.0, 2.0, 3.0, 5.0, 7.0, 10.0, 100.0, 1000.0
 INT_POOL = [0, 1, -1, 2, 10, 1000, 2 ** 63 - 1, -2 ** 63, 2 ** 53 + 1, 3037000500, -3037000500, 3037000499, 64, 63, 255]
 
 
+STRING_POOL = ['\u0391\u03a3', 'A\u03a3 ', '\u00df\u00df', '\u0130I', ' a ', 'aA', '\u01c5x', '\u4e0a\u010a', 'a\u00e9', '\u20ac\u00e4']
+
+
 def diversify_plan(specs):
-    """[(z3 variable term, [z3 values])] for the scalar leaves of the given specs"""
+    """list of constraint lists (each a conjunction) to try on top of a satisfiable counterexample query: scalar leaves are pinned to
+    telling values one at a time, whole strings to telling texts (final sigma, sharp s, dotted I, surrounding blanks, multi-byte characters)"""
     import models
     out = []
 
+    def is_var(t):
+        return z3.is_const(t) and t.decl().kind() == z3.Z3_OP_UNINTERPRETED
+
     def walk(s):
-        if s[0] == 'F' and z3.is_const(s[1]) and s[1].decl().kind() == z3.Z3_OP_UNINTERPRETED:
-            out.append((s[1], [models.fp_from_py(x) for x in FLOAT_POOL]))
-        elif s[0] == 'I' and z3.is_const(s[1]) and s[1].decl().kind() == z3.Z3_OP_UNINTERPRETED:
-            out.append((s[1], [z3.BitVecVal(x, 64) for x in INT_POOL]))
+        if s[0] == 'F' and is_var(s[1]):
+            for x in FLOAT_POOL:
+                out.append([s[1] == models.fp_from_py(x)])
+        elif s[0] == 'I' and is_var(s[1]):
+            for x in INT_POOL:
+                out.append([s[1] == z3.BitVecVal(x, 64)])
+        elif s[0] == 'S' and s[1] and all(is_var(c) for c in s[1]):
+            n = len(s[1])
+            for text in STRING_POOL:
+                t = (text * n)[:n] if len(text) < n else text[-n:]
+                # keep the telling suffix: capital sigma (etc.) at the end, padded on the left with the first character
+                t = (text[0] * max(0, n - len(text)) + text)[-n:]
+                out.append([c == ord(ch) for c, ch in zip(s[1], t)])
         elif s[0] == 'T':
             for x in s[1]:
                 walk(x)
     for sp in specs:
         if sp is not None:
             walk(sp)
+    # interleave so that the cap on extra models does not starve later variables
+    import random as _r
+    _r.Random(0).shuffle(out)
     return out
